@@ -19,7 +19,8 @@ NT_RULE = ('id collections of 0-60 ids from 1-3 prefixes (plain, containing the 
            'lines; distinct = distinct canonical JSON')
 REQUIRED_ORACLES = ['I1', 'I2', 'I3', 'I4']
 REQUIRED_CLASSES = ['ids:empty', 'ids:multi_prefix', 'ids:gap', 'ids:duplicate', 'ids:prefix_has_delim',
-                    'ids:empty_prefix', 'ids:leading_delim', 'ids:pad_other', 'ids:as_id_attr', 'ids:as_name_attr',
+                    'ids:empty_prefix', 'ids:leading_delim', 'ids:pad_other', 'ids:as_id_attr', 'ids:as_name_attr', 'ids:as_equal_objs', 'ids:as_reaction',
+                    'ids:as_surface_reaction', 'ids:as_surface_reaction_late_id', 'ids:value_equal_objects_distinct_ids',
                     'ids:bad_suffix', 'ids:non_str', 'ids:numbering_shared_pool', 'ids:same_number_other_padding', 'ids:numbering_suffix_in_prefix', 'wrap:single_line', 'wrap:multi_line', 'wrap:long_token', 'wrap:whitespace_char_in_token:multi_line',
                     'wrap:dict', 'wrap:list', 'wrap:str', 'wrap:tuple']
 REQUIRED_PROBES = ['_get_omkm_range', 'obj_to_cti']
@@ -38,6 +39,47 @@ class _WithId:
 class _WithName:
     def __init__(self, v):
         self.name = v
+
+
+class _EqualById:
+    """objects with an id that all compare (and hash) equal: the id is not part of their identity, as for
+    pmutt.reaction.Reaction whose to_dict-based __eq__ does not look at .id"""
+    def __init__(self, v):
+        self.id = v
+
+    def __eq__(self, other):
+        return isinstance(other, _EqualById)
+
+    def __hash__(self):
+        return 17
+
+
+_RXN_PARTS = {}
+
+
+def _real_reaction(v, kind):
+    """a real pMuTT reaction object carrying the identifier: the same elementary step entered several times
+    (content equal by value), each object with its own id"""
+    import numpy as np
+    if not _RXN_PARTS:
+        from pmutt.empirical.nasa import Nasa
+        a = np.array([1., 0., 0., 0., 0., 0., 0.])
+        mk = lambda n, el: Nasa(name=n, T_low=200., T_mid=500., T_high=1000., a_low=a.copy(), a_high=a.copy(),
+                                elements=el, phase='G')
+        _RXN_PARTS['A'], _RXN_PARTS['B'] = mk('A', {'H': 2}), mk('B', {'H': 1})
+    A, B = _RXN_PARTS['A'], _RXN_PARTS['B']
+    kw = dict(reactants=[A], reactants_stoich=[1.], products=[B], products_stoich=[2.])
+    if kind == 'reaction':
+        from pmutt.reaction import Reaction
+        r = Reaction(**kw)
+        r.id = v
+        return r
+    from pmutt.omkm.reaction import SurfaceReaction
+    if kind == 'surface_reaction_late_id':
+        r = SurfaceReaction(**kw)
+        r.id = v
+        return r
+    return SurfaceReaction(id=v, **kw)
 
 
 # ------------------------------------------------------------------ generator
@@ -147,7 +189,8 @@ def generate(rng, tier):
         shuffle_ = rng.random() < 0.6
         if not shuffle_:
             ids = sorted(ids, key=lambda x_: 0)      # keep generation order (groups adjacent, ascending)
-        return {'kind': 'ids', 'ids': ids, 'delim': delim, 'as': rng.choice(['str', 'str', 'id', 'name']),
+        return {'kind': 'ids', 'ids': ids, 'delim': delim, 'as': rng.choice(['str', 'str', 'str', 'id', 'id', 'name', 'name', 'equal_objs', 'reaction', 'surface_reaction',
+                                  'surface_reaction_late_id']),
                 'numbering': numbering, 'repad': repad}
     if r < 0.62:
         why = rng.choice(['bad_suffix', 'non_str'])
@@ -280,13 +323,22 @@ def _wrap_objs(spec):
         return [_WithId(v) for v in spec['ids']]
     if how == 'name':
         return [_WithName(v) for v in spec['ids']]
+    if how == 'equal_objs':
+        return [_EqualById(v) for v in spec['ids']]
+    if how in ('reaction', 'surface_reaction', 'surface_reaction_late_id'):
+        return [_real_reaction(v, how) for v in spec['ids']]
     return list(spec['ids'])
 
 
 def _ids(spec, ctx):
     from pmutt.cantera import _get_omkm_range
     feats = classify_ids(spec, ctx)
-    ctx.cls('ids:as_%s_attr' % spec['as'] if spec['as'] != 'str' else 'ids:as_str')
+    if spec['as'] in ('str', 'id', 'name'):
+        ctx.cls('ids:as_%s_attr' % spec['as'] if spec['as'] != 'str' else 'ids:as_str')
+    else:
+        ctx.cls('ids:as_' + spec['as'])
+        if len(set(spec['ids'])) >= 2:
+            ctx.cls('ids:value_equal_objects_distinct_ids')
     if spec.get('numbering'):
         ctx.cls('ids:numbering_' + spec['numbering'])
     if spec.get('repad'):
